@@ -2,7 +2,30 @@
    written from the standard agrees). Property theorems only.
     *)
 From V Require Import Common.Base JpegLL.JllBits JpegLL.JllHuff JpegLL.JllModel JpegLL.JllT81
-  JpegLL.JllProofsBits JpegLL.JllProofsHuff JpegLL.JllProofs JpegLL.JllProofsRT JpegLL.JllProofsT81.
+  JpegLL.JllProofsBits JpegLL.JllProofsHuff JpegLL.JllProofs JpegLL.JllProofsRT JpegLL.JllProofsT81
+  JpegLL.JllProofsCanon JpegLL.JllProofsT81Dec.
+
+(* First sentence of C13 in the model world: the independent T.81 Annex H decoder (written from
+   the standard: Annex C code tables searched as an association list, DECODE/RECEIVE/EXTEND,
+   H.1.2.1 prediction with one sliding state per component, sums modulo 2^16, marker parser
+   with fill bytes) returns the exact source image, geometry and precision from the stream of
+   lossless.Encode for every predictor 1..7 and automatic selection (0) ... *)
+Theorem C13_t81_decodes_lossless : forall w h comps P pred pixels s,
+  wf_image w h comps P pixels -> 0 <= pred <= 7 ->
+  table_hyp (ll_diffs w comps P (effective_pred w h comps P pred pixels) (pixels_to_rows w h comps P pixels)) ->
+  jll_encode w h comps P pred pixels = Ok s ->
+  t81_decode s = Some (pixels, w, h, comps, P).
+Proof. exact t81_decodes_jll. Qed.
+Print Assumptions C13_t81_decodes_lossless.
+
+(* ... and from the stream of lossless14sv1.Encode. *)
+Theorem C13_t81_decodes_sv1 : forall w h comps P pixels s,
+  wf_image w h comps P pixels ->
+  table_hyp (sv1_diffs w comps P (pixels_to_rows w h comps P pixels)) ->
+  sv1_encode w h comps P pixels = Ok s ->
+  t81_decode s = Some (pixels, w, h, comps, P).
+Proof. exact t81_decodes_sv1. Qed.
+Print Assumptions C13_t81_decodes_sv1.
 
 (* The prediction used by encodeScan / decodeScan / optimizeHuffmanTables is the rule of
    H.1.2.1 (first sample 2^(P-1), first line Ra, first column Rb, otherwise Table H.1) for
@@ -66,6 +89,18 @@ Theorem C13_sv1_decoder_on_t81 : forall w h comps P pixels bits vals s,
   sv1_decode s = Ok (pixels, w, h, comps, P).
 Proof. exact sv1_decodes_t81. Qed.
 Print Assumptions C13_sv1_decoder_on_t81.
+
+(* the independent codec is self-consistent (decoder after encoder) in that configuration, for
+   every predictor and every valid table; the general configuration is t81_roundtrip_statement *)
+Theorem C13_t81_roundtrip_config : forall w h comps P pred pixels bits vals s,
+  wf_image w h comps P pixels -> 1 <= pred <= 7 ->
+  t81_table_ok bits vals = true ->
+  covers vals (ll_diffs w comps P pred (pixels_to_rows w h comps P pixels)) ->
+  t81_encode pred (repeat 0 (Z.to_nat comps)) [(0, (bits, vals))] true [(224, jfif_payload)]
+             w h comps P pixels = Some s ->
+  t81_decode s = Some (pixels, w, h, comps, P).
+Proof. exact t81_roundtrip_partial. Qed.
+Print Assumptions C13_t81_roundtrip_config.
 
 (* ---------- non-vacuity / instances ---------- *)
 (* predictor 7, three components, P = 12: hypotheses hold, both encoders give the same bytes,
